@@ -104,6 +104,10 @@ def ensure(repo=REPO, log=sys.stderr):
     os.makedirs(factsroot, exist_ok=True)
     fdir = os.path.join(factsroot, th)
     if _complete(fdir):
+        try:
+            os.utime(fdir)      # LRU: pruning removes the least recently *used* fact sets
+        except OSError:
+            pass
         return fdir, th, False, time.time() - t0
     lock = open(os.path.join(CACHE, "lock"), "w")
     fcntl.flock(lock, fcntl.LOCK_EX)
